@@ -54,9 +54,12 @@ structure Req where
 def httpScheme : Bytes := [104, 116, 116, 112]             -- "http"
 def schemeSep : Bytes := [58, 47, 47]                     -- "://"
 
+def portPart : Option Bytes → Bytes
+  | some p => COLON :: p
+  | none => []
+
 def renderTarget : Target → Bytes
-  | .absolute host port pathq =>
-    httpScheme ++ schemeSep ++ host ++ (match port with | some p => COLON :: p | none => []) ++ pathq
+  | .absolute host port pathq => httpScheme ++ schemeSep ++ host ++ portPart port ++ pathq
   | .origin pathq => pathq
 
 def renderField (f : Field) : Bytes := f.name ++ COLON :: (f.pre ++ f.value ++ f.post) ++ CRLF
@@ -122,9 +125,9 @@ def targetOk : Target → Bool
 
 def nameIs (k : Bytes) (f : Field) : Bool := lower f.name == k
 
-def clName : Bytes := b "content-length"
-def teName : Bytes := b "transfer-encoding"
-def chunkedTok : Bytes := b "chunked"
+def clName : Bytes := [99, 111, 110, 116, 101, 110, 116, 45, 108, 101, 110, 103, 116, 104]                  -- "content-length"
+def teName : Bytes := [116, 114, 97, 110, 115, 102, 101, 114, 45, 101, 110, 99, 111, 100, 105, 110, 103]    -- "transfer-encoding"
+def chunkedTok : Bytes := [99, 104, 117, 110, 107, 101, 100]                                                -- "chunked"
 
 /-- `1*HEXDIG [ ";" ext ]` announcing `n` bytes -/
 def sizeLineOk (sz ext : Bytes) (n : Nat) : Bool :=
@@ -164,6 +167,16 @@ def Req.isAbsolute (r : Req) : Bool := match r.target with | .absolute .. => tru
 /-! ### what the origin has to receive -/
 
 def viaLower : Bytes := [118, 105, 97]      -- "via"
+
+/-- configurations the property speaks about: the operator does not disable the framing
+    fields or Via, the names of the proxy-only fields are not those either, and the
+    re-chunking size is positive -/
+def CfgOk (cfg : Cfg) : Prop :=
+  cfg.bufSize ≠ 0 ∧
+  ∀ k ∈ [viaLower, clName, teName],
+    cfg.disable.contains k = false ∧ k ≠ lower cfg.proxyAuthorization ∧ k ≠ lower cfg.proxyConnection
+
+instance (cfg : Cfg) : Decidable (CfgOk cfg) := by unfold CfgOk; infer_instance
 
 /-- fields a proxy does not pass on: its own credentials, Proxy-Connection, operator-disabled names -/
 def removed (cfg : Cfg) (f : Field) : Bool :=
